@@ -1,8 +1,26 @@
-(* C07 — comparison is the numeric order, NaN unordered: property theorems. *)
-From Coq Require Import List NArith ZArith Bool.
-From HV Require Import Model.Big Model.Rat Proofs.RatBase.
-Open Scope N_scope.
+(* C07 — comparison of rationals is the numeric order; NaN is unordered.  Property theorems only. *)
+From Coq Require Import List NArith ZArith QArith Bool.
+Import ListNotations.
+From HV Require Import Model.Big Model.Rat Proofs.RatBase Proofs.RatSpec Proofs.RatAll.
+Open Scope Z_scope.
+
+Theorem C07_cmp : forall a b, wfn a -> wfn b ->
+  ncmp a b = match nval a, nval b with Some x, Some y => Some (x ?= y)%Q | _, _ => None end.
+Proof. exact ncmp_t. Qed.
+Print Assumptions C07_cmp.
 
 Theorem C07_nan_unordered : forall a b, is_nan a = true \/ is_nan b = true -> ncmp a b = None.
 Proof. exact ncmp_nan. Qed.
 Print Assumptions C07_nan_unordered.
+
+(* the pinned tree (before fix ee4735c) compared up*down' with down*down': 5 vs 7 was Greater *)
+Theorem C07_cmp_pre_fix_refuted :
+  exists a b, wfnb a = true /\ wfnb b = true /\ ncmp_pre_fix a b = Some Gt /\ ncmp a b = Some Lt.
+Proof. exists (from_num 5), (from_num 7). vm_compute. repeat split; reflexivity. Qed.
+Print Assumptions C07_cmp_pre_fix_refuted.
+
+Example C07_examples :
+  ncmp (nnew 1 2) (nnew 1 3) = Some Gt /\ ncmp (nnew (-7) 3) (nnew (-5) 2) = Some Gt /\
+  ncmp (nnew 2 4) (nnew 1 2) = Some Eq /\ ncmp nan (nnew 1 1) = None.
+Proof. vm_compute. repeat split; reflexivity. Qed.
+Print Assumptions C07_examples.
